@@ -37,8 +37,8 @@ type e2eInst struct {
 
 var e2eInsts = map[string]*e2eInst{}
 
-func e2eGet(key crypto.PrivKey, keyNo uint64, mac []byte, ttl time.Duration, tr handshake.VerifTransport) *e2eInst {
-	id := fmt.Sprintf("%d/%x/%d/%v/%v/%v", keyNo, mac[:4], ttl, tr.NoTLS, tr.HasFn, tr.HasTLS)
+func e2eGet(key crypto.PrivKey, keyNo uint64, inst string, mac []byte, ttl time.Duration, tr handshake.VerifTransport) *e2eInst {
+	id := fmt.Sprintf("%d/%s/%x/%d/%v/%v/%v", keyNo, inst, mac, ttl, tr.NoTLS, tr.HasFn, tr.HasTLS)
 	if in, ok := e2eInsts[id]; ok {
 		return in
 	}
@@ -47,12 +47,14 @@ func e2eGet(key crypto.PrivKey, keyNo uint64, mac []byte, ttl time.Duration, tr 
 		PrivKey:  key,
 		TokenTTL: ttl,
 		NoTLS:    tr.NoTLS,
-		HmacKey:  append([]byte{}, mac...),
 		Next: func(p peer.ID, w http.ResponseWriter, r *http.Request) {
 			in.called, in.pid = true, p
 			w.WriteHeader(http.StatusOK)
 		},
 	}
+	if mac != nil {
+		in.auth.HmacKey = append([]byte{}, mac...)
+	} // else: the default, a secret the instance draws for itself
 	if tr.HasFn {
 		in.auth.ValidHostnameFn = func(h string) bool { return in.allowed[h] }
 	}
@@ -76,9 +78,9 @@ func e2eGet(key crypto.PrivKey, keyNo uint64, mac []byte, ttl time.Duration, tr 
 }
 
 func init() {
-	handshake.VerifE2EServer = func(key crypto.PrivKey, keyNo uint64, mac []byte, ttl time.Duration,
+	handshake.VerifE2EServer = func(key crypto.PrivKey, keyNo uint64, inst string, mac []byte, ttl time.Duration,
 		tr handshake.VerifTransport, host, sni, hdr string) (res handshake.VerifE2EResult) {
-		in := e2eGet(key, keyNo, mac, ttl, tr)
+		in := e2eGet(key, keyNo, inst, mac, ttl, tr)
 		in.mu.Lock()
 		defer in.mu.Unlock()
 		in.called, in.pid, in.seenHdr = false, "", ""
@@ -110,6 +112,7 @@ func init() {
 		res.Status = resp.StatusCode
 		res.Called, res.Pid = in.called, in.pid
 		res.SeenHdr = in.seenHdr
+		res.InstKey = in.auth.HmacKey
 		res.SeenTLS, res.SeenSNI = in.seenTLS, in.seenSNI
 		for _, n := range []string{"WWW-Authenticate", "Authentication-Info"} {
 			if v := resp.Header.Get(n); v != "" {
